@@ -167,12 +167,17 @@ def _work_replay(job):
     return tr
 
 
-def produce(fn, jobs, procs=NCPU):
+def make_pool(procs=NCPU):
+    """Worker processes are forked BEFORE any thread of this process starts a TLC subprocess
+    (forking a process whose other threads hold locks can deadlock the child) and are never
+    re-forked (no maxtasksperchild)."""
+    return multiprocessing.get_context("fork").Pool(processes=procs)
+
+
+def produce(pool, fn, jobs):
     if not jobs:
         return []
-    ctx = multiprocessing.get_context("fork")
-    with ctx.Pool(processes=procs, maxtasksperchild=200) as pool:
-        return pool.map(fn, jobs, chunksize=max(1, min(16, len(jobs) // (procs * 4) or 1)))
+    return pool.map(fn, jobs, chunksize=max(1, min(16, len(jobs) // (NCPU * 4) or 1)))
 
 
 # ---------------------------------------------------------------------------
@@ -383,18 +388,22 @@ def run(pid, tier, seed):
     rng = random.Random(seed)
     res = {"level": LEVEL[pid], "violations": [], "assumptions": list(ASSUME)}
     t0 = time.time()
-    with concurrent.futures.ThreadPoolExecutor(max_workers=1) as bg:
-        fut = bg.submit(run_mc, tier, seed)
-        # code -> spec: random histories (while TLC explores the model)
-        jobs = [(seed * 100003 + i, conf["nops"]) for i in range(conf["random"])]
-        rtraces = produce(_work_random, jobs, procs=max(2, NCPU - 2 * conf["mc_workers"])
-                          if tier == "quick" else NCPU // 2)
-        t_rand = time.time() - t0
-        mcs = fut.result()
-    t_mc = time.time() - t0
-    # spec -> code
-    mjobs, enumerated = pick_histories(mcs, tier, seed)
-    mtraces = produce(_work_replay, mjobs)
+    pool = make_pool()
+    try:
+        with concurrent.futures.ThreadPoolExecutor(max_workers=1) as bg:
+            fut = bg.submit(run_mc, tier, seed)
+            # code -> spec: random histories (while TLC explores the model)
+            jobs = [(seed * 100003 + i, conf["nops"]) for i in range(conf["random"])]
+            rtraces = produce(pool, _work_random, jobs)
+            t_rand = time.time() - t0
+            mcs = fut.result()
+        t_mc = time.time() - t0
+        # spec -> code
+        mjobs, enumerated = pick_histories(mcs, tier, seed)
+        mtraces = produce(pool, _work_replay, mjobs)
+    finally:
+        pool.terminate()
+        pool.join()
     traces = rtraces + mtraces
     verdicts, stats = judge(traces)
 
